@@ -148,3 +148,16 @@ fn f11_largest_f_name() {
     assert_ne!(s, t);
     let _ = Pattern::<T>::parse("(var $f1073741823)");
 }
+
+// F7 (known finding, not repaired): private occurrences are subtracted by name
+#[test]
+fn f7_private_public_partition() {
+    let x = Slot::numeric(0);
+    let app = |s: Slot| AppliedId::new(Id(0), SlotMap::from_pairs(&[(Slot::numeric(9), s)]));
+    let n = T::Sum(app(x), Bind { slot: x, elem: app(x) });
+    let all = n.all_slot_occurrences().len();
+    let public = n.public_slot_occurrences().len();
+    let private = n.private_slot_occurrences().len();
+    assert_eq!((all, public), (3, 1));
+    assert_eq!(public + private, all, "public and private occurrences must partition all occurrences");
+}
